@@ -23,7 +23,7 @@ X(kind, e) == IF kind = "fn" THEN Spy("spx", "f1", e) ELSE SpyF("sfx", "f1", e)
 
 Positions == {"print", "chainfirst", "chainlast", "chainmiddle", "chainupper", "forseq", "apply", "filtarg",
               "fnarg", "ifcond", "set", "arr", "hash", "cond", "incwith", "macroarg", "macrodefault", "binop",
-              "elseif", "forbody", "testarg"}
+              "elseif", "forbody", "testarg", "modcall", "modcall2"}
 OnlyFilter == {"chainfirst", "chainlast", "chainmiddle", "chainupper", "apply"}
 UsesHelpers == {"chainfirst", "chainlast", "chainmiddle", "chainupper", "filtarg", "fnarg", "incwith", "macroarg", "macrodefault"}
 
@@ -48,6 +48,8 @@ Frag(pos, kind) ==
       [] pos = "testarg"     -> <<IfElse(Test(X(kind, LI(2)), "even", <<>>, FALSE), <<T(<<84>>)>>, <<T(<<70>>)>>)>>
       [] pos = "incwith"     -> <<Include(LS(NT.t5), Hash(<<LS(NT.z)>>, <<X(kind, LI(1))>>), TRUE, FALSE, FALSE, FALSE)>>
       [] pos = "macroarg"    -> <<Macro("mm", <<Param("z")>>, <<PrintS(Var("z"))>>), PrintS(Call("mm", <<X(kind, LI(1))>>))>>
+      [] pos = "modcall"     -> <<PrintS(MCall("u", "spx", <<Lit([t |-> "id", id |-> "f1"]), LI(1)>>))>>   \* u.spx('f1', 1), u is no module
+      [] pos = "modcall2"    -> <<Import(LS(NT.t5), "L"), PrintS(MCall("L", "spx", <<Lit([t |-> "id", id |-> "f1"]), LI(1)>>))>>
       [] pos = "macrodefault" -> <<Macro("mm", <<ParamD("z", X(kind, LI(1)))>>, <<PrintS(Var("z"))>>), PrintS(Call("mm", <<>>))>>
 
 Routes1 == {"direct", "include", "includeonly", "includewith", "extendsbody", "extendsblock", "parent",
@@ -86,8 +88,11 @@ Cases == {[pos |-> pos, kind |-> kind, route |-> route, pol |-> pol, r2 |-> "non
             : pos \in {"print", "chainlast", "forseq", "apply", "ifcond", "macroarg"}, kind \in {"fn", "filter"},
               route \in {"include", "includeonly", "import", "extendsblock"},
               r2 \in {"include", "includeonly", "extendsbody", "parent", "from", "localmacro"}, pol \in {"forbid", "allow"}} ELSE {})
+ModCall == {"modcall", "modcall2"}
 Valid(c) ==
     /\ (c.pos \in OnlyFilter => c.kind = "filter")
+    /\ (c.pos \in ModCall => c.kind = "fn" /\ c.pol = "forbid" /\ c.r2 = "none"
+                             /\ (c.pos = "modcall2" => RouteKeepsTop(c.route)))
     /\ (FragNeedsTop(c.pos) => RouteKeepsTop(c.route) /\ (c.r2 = "none" \/ RouteKeepsTop(c.r2)))
     \* the empty policy only where nothing but the forbidden name is a filter/function/macro
     /\ (c.pol = "empty" => c.pos \notin UsesHelpers /\ c.route \notin UsesMacroRoute /\ c.r2 = "none")
@@ -118,7 +123,7 @@ Ref(c) == Render(World(c), "main", EmptyFn)
 \* f1 is only ever invoked below the boundary, o1/o2 only outside
 Confined(c) ==
     LET r == Ref(c) IN
-    /\ (c.pol \in {"forbid", "empty"} => (~r.ok /\ r.err = "security" /\ CountOf(r.calls, "f1") = 0))
+    /\ (c.pol \in {"forbid", "empty"} => (~r.ok /\ (r.err = "security" \/ c.pos \in ModCall) /\ CountOf(r.calls, "f1") = 0))
     /\ (c.pol = "allow" => r.ok /\ CountOf(r.calls, "f1") >= 1)
     /\ CountOf(r.calls, "o1") = 1 /\ CountOf(r.calls, "o2") = 1
 
@@ -130,7 +135,9 @@ CaseOf(c) ==
         entry |-> "main", ctx |-> EmptyFn,
         cfg |-> [sandbox |-> TRUE, allowf |-> AllowF(c.pol), allowfn |-> AllowFn(c.pol)],
         runs |-> {[label |-> "sandbox", tp |-> Sources(Tp(c), LMin), xcalls |-> [id \in {} |-> 0]]},
-        expect |-> [ok |-> ref.ok, out |-> ref.out, err |-> ref.err,
+        \* x.f() where x is not a macro library: whether that is "unknown macro" or a security
+        \* violation is not stated -- any error will do, but the forbidden function must not run
+        expect |-> [ok |-> ref.ok, out |-> ref.out, err |-> IF c.pos \in ModCall THEN "any" ELSE ref.err,
                     calls |-> [id \in ids |-> CountOf(ref.calls, id)],
                     always |-> IF ref.ok THEN [id \in {} |-> 0]
                                ELSE [id \in {"f1", "o1", "o2"} |-> CountOf(ref.calls, id)]]]
